@@ -393,12 +393,15 @@ class Gen:
     def create(self):
         r = self.r
         rt = assemble([("push", r.choice([0, 7])), "PUSH0", "SSTORE", "STOP"]) if r.random() < 0.5 else assemble(["CALLER", "PUSH0", "MSTORE", ("push", 32), "PUSH0", "RETURN"])
-        mode = r.choice(["ok", "ok", "revert", "invalid", "ctx", "ctx"])
+        mode = r.choice(["ok", "ok", "revert", "invalid", "ctx", "ctx", "revert_data", "revert_data"])
         if mode == "ctx":
             # the constructor looks at its own context: calldata is EMPTY in a creation frame (copy, load, size),
             # the deployed code records what it saw
             init = assemble([("push", 32), "PUSH0", "PUSH0", "CALLDATACOPY", "CALLDATASIZE", ("push", 32), "MSTORE", "PUSH0", "CALLDATALOAD", ("push", 64), "MSTORE",
                              r.choice(["CALLER", "CALLVALUE", "ADDRESS", "CODESIZE"]), ("push", 96), "MSTORE", ("push", 128), "PUSH0", "RETURN"])
+        elif mode == "revert_data":
+            # the constructor reverts WITH data: the creator's returndata buffer holds it (EIP-211)
+            init = assemble([("push", r.choice([0xAB, 0xCD00, 1])), "PUSH0", "MSTORE", ("push", 7), ("push", 1), "SSTORE", ("push", r.choice([32, 33, 1])), "PUSH0", "REVERT"])
         elif mode == "ok":
             init = assemble([("pushn", 32, int.from_bytes(rt.ljust(32, b"\0"), "big")), "PUSH0", "MSTORE", ("push", len(rt)), "PUSH0", "RETURN"])
         elif mode == "revert":
@@ -411,6 +414,12 @@ class Gen:
         w1 = int.from_bytes(init[32:64].ljust(32, b"\0"), "big")
         items = [("pushn", 32, w0), ("push", 256), "MSTORE", ("pushn", 32, w1), ("push", 288), "MSTORE"]
         items += [("push", n), ("push", 256), ("push", r.choice([0, 0, 1])), "CREATE", ("push", 192), "MSTORE"]
+        # what the creator sees in its returndata buffer afterwards (empty after a success, the revert data after a revert)
+        c = r.random()
+        if c < 0.4:
+            items += ["RETURNDATASIZE", ("push", 160), "MSTORE"]
+        elif c < 0.7:
+            items += ["RETURNDATASIZE", "PUSH0", ("push", 128), "RETURNDATACOPY"]
         return items
 
     def symjump_tail(self):
@@ -443,7 +452,7 @@ class Gen:
         if epilogue:
             c = self.r.random()
             if c < 0.75:
-                sizes = [224, 256, 256] if "call" in self.f else [32, 64, 96, 224]
+                sizes = [224, 256, 256] if ("call" in self.f or "create" in self.f) else [32, 64, 96, 224]
                 items += [("push", self.r.choice(sizes)), "PUSH0", "RETURN"]
             elif c < 0.85:
                 items += ["STOP"]
